@@ -329,6 +329,16 @@ def check_hidden_state(prog, rep, modules=None, rule='A-state'):
                         e_ = e_.args[0]
                     if isinstance(e_, ast.Name):
                         bare.add(e_.id)
+                # a name that occurs in the key outside of any subscript
+                # INDEX (tuple(i.tolist()), i.tobytes(), (k, x)) enters the
+                # key as a whole
+                in_index = set()
+                for sub_ in ast.walk(key_expr):
+                    if isinstance(sub_, ast.Subscript):
+                        in_index |= {id(x) for x in ast.walk(sub_.slice)}
+                for x in ast.walk(key_expr):
+                    if isinstance(x, ast.Name) and id(x) not in in_index:
+                        bare.add(x.id)
                 missing = []
                 for d_, s_ in need.items():
                     if d_ in have:
